@@ -250,6 +250,47 @@ set_option maxRecDepth 4000 in
 example : windowBlockCfg.1.wpc = .exited ∧ (∀ t ∈ windowBlockCfg.2, t.finished = true) ∧
     okFinal (trace windowBlockCfg) = true ∧ (Mon.run (trace windowBlockCfg)).dn 1 = 1 := by decide
 
+/-! ### Queue size 0 (`WithQueueSize(0)`: the queue is an unbuffered channel)
+
+Every theorem above quantifies over `q`, hence covers `q = 0`, where the model's send is the rendezvous hand-off
+(`stepProd`, `.send`: enabled only while the writer is in one of its two `select`s).  Non-vacuity: the forced
+schedules on the model with `q = 0` are complete runs; the hand-off is the only way an object reaches the writer. -/
+
+def windowCfgU : Cfg St Thread := runSched sys (initSt 0 1, witnessThreads 1 (fun _ => 0)) (windowSchedU 1)
+def windowDupCfgU : Cfg St Thread := runSched sys (initSt 0 1, witnessThreads 2 (fun _ => 0)) windowDupSchedU
+def twoStopsCfgU : Cfg St Thread := runSched sys (initSt 0 1, twoStopsThreads) twoStopsSchedU
+
+set_option maxRecDepth 4000 in
+example : windowCfgU.1.wpc = .exited ∧ (∀ t ∈ windowCfgU.2, t.finished = true) ∧ okFinal (trace windowCfgU) = true ∧
+    (Mon.run (trace windowCfgU)).dn 0 = 1 ∧ windowCfgU.1.queue = [] ∧ windowCfgU.1.rcv 0 = 1 ∧
+    (trace windowCfgU).getLast? = some (.stopRet 0) := by decide
+
+set_option maxRecDepth 4000 in
+example : windowDupCfgU.1.wpc = .exited ∧ (∀ t ∈ windowDupCfgU.2, t.finished = true) ∧
+    okFinal (trace windowDupCfgU) = true ∧ (Mon.run (trace windowDupCfgU)).dn 0 = 1 := by decide
+
+set_option maxRecDepth 4000 in
+example : twoStopsCfgU.1.wpc = .exited ∧ (∀ t ∈ twoStopsCfgU.2, t.finished = true) ∧ okFinal (trace twoStopsCfgU) = true ∧
+    trace twoStopsCfgU = trace twoStopsCfg := by decide
+
+/-- With queue size 0 nothing is ever buffered: the queue stays empty in every reachable configuration, and every
+object the writer has received was handed over by a producer's send (`rcv = snt`). -/
+theorem C08_unbuffered_queue_empty {b : Nat} {c0 c : Cfg St Thread} (h0 : Init 0 b c0) (hr : Reach sys c0 c) :
+    c.1.queue = [] ∧ ∀ o, c.1.rcv o = c.1.snt o := by
+  have hq : c.1.qsize = 0 ∧ c.1.queue = [] := by
+    obtain ⟨s0, ts⟩ := c0
+    obtain ⟨rfl, _, _⟩ := h0
+    refine inv_of_step (fun c => c.1.qsize = 0 ∧ c.1.queue = []) ⟨rfl, rfl⟩ ?_ hr
+    intro s pre t post s' t' h hm
+    obtain ⟨h1, h2⟩ := h
+    simp only at h1 h2 ⊢
+    step_cases
+    all_goals (first | exact ⟨h1, h2⟩ | (simp_all [emit, afterCommit]; done) | (exfalso; simp_all; done))
+  refine ⟨hq.2, fun o => ?_⟩
+  have := ((inv_reach h0 hr).wo o).rcv_snt
+  simp [hq.2] at this
+  exact this
+
 /-! ### The old protocol (`sysOld`: running check before the counter increment) violates the statement -/
 
 def oldWindowCfg : Cfg St Thread := runSched sysOld (initSt 1 1, witnessThreads 1 (fun _ => 0)) (oldWindowSched 1)
